@@ -349,6 +349,12 @@ class Intervals:
         dty = self.b.local_ty(t["dest"]["l"])
         rng = ty_range(dty)
         args = [self.eval_op(st, a) for a in t["args"]]
+        if m in ("into_iter", "rev", "by_ref", "iter") and t["args"] and not t["dest"]["pr"]:
+            p = op_place(t["args"][0])
+            if p is not None:
+                r = self.ranges.get(p["l"]) or self.ranges.get(self.root(p["l"]))
+                if r:
+                    self.ranges[t["dest"]["l"]] = r
         if c in self.call_summaries and m not in ("len",):
             v, pz = self.call_summaries[c]
             if v is not None or pz is not None:
@@ -408,12 +414,6 @@ class Intervals:
                     return None, pay
             pt = payload_ty(dty)
             return None, INT_RANGES.get(pt)
-        if m in ("into_iter", "rev", "by_ref", "iter") and t["args"] and not t["dest"]["pr"]:
-            p = op_place(t["args"][0])
-            if p is not None:
-                r = self.ranges.get(p["l"]) or self.ranges.get(self.root(p["l"]))
-                if r:
-                    self.ranges[t["dest"]["l"]] = r
         if m == "next" and t["args"]:
             # iterator over a Range<usize>: payload in [start, end-1]
             p = op_place(t["args"][0])
